@@ -229,7 +229,8 @@ def ob_e2e(tier):
     from vlib import synth, tokens as T
 
     files = ["VOL-X-Y", "LED-X-Y"] + [f"IMG-{p}-{synth.SCENE}-WBDR1.5GUD" for p in ("HH", "HV", "VV")] + ["TRL-X-Y"]
-    lines = synth.summary_lines(files, 7, 5, "WBDR1.5GUD") + ['Pdi_NoOfPixels_2="70"', 'Pdi_NoOfLines_2="50"', 'Rad_Note="a = \\"b\\" c"'.replace("\\", "")]
+    lines = synth.summary_lines(files, 7, 5, "WBDR1.5GUD") + ['Pdi_NoOfPixels_2="70"', 'Pdi_NoOfLines_2="50"', 'Rad_Note="a = \\"b\\" c"'.replace("\\", ""),
+                                                              'Rad_Station="Troms\u00f8 \u00c5lesund \u4e2d"']
     ref = None
     bad = []
     runs = 0
@@ -257,6 +258,8 @@ def ob_e2e(tier):
                     bad.append({"what": "shapes", "got": dict(g["product_information"]["shapes"].attrs)})
                 if g["result_information"].attrs.get("Note") != 'a = "b" c':
                     bad.append({"what": "value with quotes/equals", "got": g["result_information"].attrs.get("Note")})
+                if g["result_information"].attrs.get("Station") != "Troms\u00f8 \u00c5lesund \u4e2d":
+                    bad.append({"what": "free text outside ASCII (the file is UTF-8 text)", "got": g["result_information"].attrs.get("Station")})
             elif flat != ref:
                 bad.append({"order": order, "sep": repr(sep), "what": "tree depends on line order / line ending", "first": [x for x in zip(flat, ref) if x[0] != x[1]][:2]})
     # corrupted lines: all of them named, no others
